@@ -40,8 +40,12 @@ def model_traces(scenarios, casedir, tag='mt'):
     return out, res
 
 
+UNMODELLED = []   # indices (of the last compare call) the machine declined to predict
+
+
 def compare(scenarios, impl, casedir, tag='corr'):
     """impl: list of (trace, info).  Returns list of (index, impl_trace, model_trace, note) mismatches."""
+    del UNMODELLED[:]
     os.makedirs(casedir, exist_ok=True)
     usable = [(i, sc, tr) for i, (sc, (tr, info)) in enumerate(zip(scenarios, impl))
               if info['final'][0] not in (92, 94)]
@@ -62,6 +66,10 @@ def compare(scenarios, impl, casedir, tag='corr'):
             bad.append((part[0][0], part[0][2], None, 'coqc failed on shard: ' + txt[-1500:]))
             continue
         for j in idx:
+            if j >= 10000:
+                # the machine does not predict this scenario (a coroutine suspends while being closed)
+                UNMODELLED.append(part[j - 10000][0])
+                continue
             bad.append((part[j][0], part[j][2], None, ''))
         try:
             os.remove(p)
